@@ -36,7 +36,14 @@ def run(tier, out):
     designs.append(("MC_RotationFresh", f))
     if not quick:
         designs.append(("MC_Rotation", V.tlc_design("MC_Rotation.tla", "MC_Rotation.cfg", PID, workers=12, timeout=1200)))
-        designs.append(("RotationRecover", V.tlc_design("RotationRecover.tla", "RotationRecover_6.cfg", PID, workers=12, timeout=1500, xmx="16g")))
+        # the exhaustive run of RotationRecover does not finish (> 240 M states for the smallest useful constants): the
+        # thorough tier samples it - random behaviours under TLC's simulation mode, both invariants checked on every state
+        rr = V.tlc("RotationRecover.tla", "RotationRecover_4.cfg", PID, workers=8, timeout=1500, xmx="8g", keep_out=True,
+                   extra=["-simulate", "num=20000", "-depth", "300"], sub="sim")
+        if not rr.invariant_violated and "Error" in rr.out and "violated" not in rr.out and "states generated" not in rr.out:
+            V.log(rr.out[-2000:])
+            raise V.ToolError("TLC simulation of RotationRecover failed")
+        designs.append(("RotationRecover (simulation: 20000 behaviours of depth 300)", rr))
     for name, r in designs:
         if r.invariant_violated or r.property_violated:
             out.violation("design|%s|%s" % (name, ",".join(r.invariant_violated or ["property"])),
